@@ -128,12 +128,15 @@ def draw_step_spec(rng, method, n=1):
         return dict(kind='scalar', value=float(10.0 ** rng.uniform(-5, -1.5)))
     kind = 'min' if (method in ('complex', 'multicomplex') or rng.random() < 0.5) else 'max'
     opts = {}
+    given = rng.random() < 0.7         # (else the generator's own default base step EPS**(1/scale(method, n, order)))
     if kind == 'min':
-        opts['base_step'] = float(10.0 ** rng.uniform(-6, -2))
+        if given:
+            opts['base_step'] = float(10.0 ** rng.uniform(-6, -2))
         if rng.random() < 0.5:
             opts['num_steps'] = int(rng.integers(6, 16))
     else:
-        opts['base_step'] = float(10.0 ** rng.uniform(-2, 0.3))
+        if given:
+            opts['base_step'] = float(10.0 ** rng.uniform(-2, 0.3))
         if rng.random() < 0.5:
             opts['num_steps'] = int(rng.integers(10, 24))
     if rng.random() < 0.5:
@@ -144,7 +147,9 @@ def draw_step_spec(rng, method, n=1):
         opts['use_exact_steps'] = bool(rng.random() < 0.5)
     if rng.random() < 0.15:
         opts['step_nom'] = 1.0
-    return dict(kind=kind, opts=opts)
+    # history: the generator instance handed to Derivative has already served another Derivative object (same method and n,
+    # another order, another point) - generators are documented as reusable
+    return dict(kind=kind, opts=opts, shared=bool(rng.random() < 0.3), shared_order=int(rng.integers(1, 9)))
 
 
 def draw_config(rng, k=None):
@@ -217,7 +222,7 @@ def make_case(rng, method, n, order, complex_valued=False):
                 spec = dict(kind='scalar', value=float(10.0 ** rng.uniform(-5, -2.5)))
             u = rng.random()
             x_form = None if u < 0.8 else str(rng.choice(['list', 'tuple'] if shape else ['zero_d', 'np_scalar']))
-            return dict(tree=tree, x=xs, shape=shape, method=method, n=n, order=order, x_form=x_form,
+            return dict(tree=tree, x=xs, shape=shape, method=method, n=n, order=order, x_form=x_form, fo_later=bool(rng.random() < 0.25),
                         step=spec, cplx=bool(complex_valued), stationary=bool(stationary),
                         int_x=bool(int_x))
     return None
@@ -337,8 +342,23 @@ def run_case(case, ctx, full_output=True):
     _OBS.clear()
     res = dict(outcome='ok', elems=[], obs=_OBS, rec=rec, tree=tree, x=x)
     try:
-        dobj = nd.Derivative(rec, step=build_step(nd, case['step']), method=method, n=n, order=order,
-                             full_output=full_output)
+        step_obj = build_step(nd, case['step'])
+        if case['step'].get('shared') and case['step']['kind'] in ('min', 'max'):
+            ctx.count('step_generator_shared_with_an_earlier_object')
+            try:
+                with np.errstate(all='ignore'):
+                    nd.Derivative(f, step=step_obj, method=method, n=n, order=case['step']['shared_order'])(0.37)
+            except Exception:
+                pass
+            _OBS.clear()       # (what the monitors saw of the earlier object is not part of the judged call)
+        if full_output and case.get('fo_later'):
+            # full_output switched on after construction (the attribute is public and the test helpers do this)
+            dobj = nd.Derivative(rec, step=step_obj, method=method, n=n, order=order)
+            dobj.full_output = True
+            ctx.count('full_output_set_after_construction')
+        else:
+            dobj = nd.Derivative(rec, step=step_obj, method=method, n=n, order=order,
+                                 full_output=full_output)
         with np.errstate(all='ignore'):
             out = dobj(x)
     except Exception as exc:
